@@ -1233,6 +1233,19 @@ def std_model(I, p, fr, t, args):
         lo, hi = d0.fields.get("start"), d0.fields.get("end")
         if isinstance(lo, int) and isinstance(hi, int) and not isinstance(lo, bool):
             d0 = Iter(list(range(lo, hi + (1 if d0.path.endswith("RangeInclusive") else 0))))
+    if n in ("skip_while", "take_while") and isinstance(d0, Iter) and d0.items is not None and len(args) > 1 and isinstance(args[1], FnVal) \
+            and (t.get("callee_trait") == "core::iter::traits::iterator::Iterator" or c.startswith("core::iter::")):
+        rest = d0.items[d0.pos:]
+        depth = getattr(fr, "depth", 0)
+        k_ = 0
+        while k_ < len(rest):
+            r_ = I.call_value(args[1], [rest[k_]], depth)
+            if not isinstance(r_, bool):
+                return Unknown("skip_while/take_while on unknown")
+            if not r_:
+                break
+            k_ += 1
+        return Iter(rest[k_:] if n == "skip_while" else rest[:k_])
     if n in ("any", "all", "map", "filter", "position", "find", "for_each", "count", "filter_map") and isinstance(d0, Iter) and d0.items is not None \
             and (t.get("callee_trait") == "core::iter::traits::iterator::Iterator" or c.startswith("core::iter::")):
         rest = d0.items[d0.pos:]
@@ -1338,6 +1351,32 @@ def std_model(I, p, fr, t, args):
             return _binop({"add": "Add", "sub": "Sub", "mul": "Mul", "div": "Div", "rem": "Rem"}.get(n, n), a, b)
     if n == "add" and sadt.endswith("string::String") and len(args) == 2:
         return strcat([d0, I.deref(args[1])])
+    # ---- concrete strings ----
+    if n in ("new", "with_capacity", "default") and sadt.endswith("string::String"):
+        return ""
+    if isinstance(d0, str) and (sadt.endswith(("string::String",)) or c.startswith(("core::str", "alloc::str", "alloc::string")) or sadt in ("str",)):
+        if n == "len":
+            return len(d0.encode("utf-8"))
+        if n == "is_empty":
+            return d0 == ""
+        if n == "chars":
+            return Iter([ord(ch) for ch in d0])
+        if n in ("bytes", "into_bytes"):
+            return Iter(list(d0.encode("utf-8")))
+        if n == "push" and len(args) == 2 and isinstance(args[0], Ref):
+            ch = I.deref(args[1])
+            if isinstance(ch, int) and not isinstance(ch, bool):
+                I.write_ref(args[0], d0 + chr(ch))
+                return Adt(None, None, {})
+        if n in ("starts_with", "ends_with", "contains") and len(args) == 2:
+            a1 = I.deref(args[1])
+            a1 = chr(a1) if isinstance(a1, int) and not isinstance(a1, bool) else a1
+            if isinstance(a1, str):
+                return {"starts_with": d0.startswith, "ends_with": d0.endswith, "contains": d0.__contains__}[n](a1)
+        if n in ("trim", "trim_start", "trim_end"):
+            return {"trim": d0.strip, "trim_start": d0.lstrip, "trim_end": d0.rstrip}[n]()
+        if n in ("to_uppercase", "to_lowercase"):
+            return d0.upper() if n == "to_uppercase" else d0.lower()
     if n in ("push_str",) and len(args) == 2 and isinstance(args[0], Ref):
         I.write_ref(args[0], strcat([d0, I.deref(args[1])]))
         return Adt(None, None, {})
